@@ -2,6 +2,7 @@ import Driver.State
 import TakVerif.Impl.PTN
 import TakVerif.Impl.PTNInst
 import TakVerif.Impl.TextGlue
+import TakVerif.Impl.PTNReal
 
 /-! Driver ops for PTN files (C12), and the PTN-file / chat-line / weights-JSON part of C13.
 Every op line is self-contained.  Bytes travel hex-encoded (`-` = empty).
@@ -9,8 +10,10 @@ Every op line is self-contained.  Bytes travel hex-encoded (`-` = empty).
 A PTN value (`File`) is written as tokens: `T<name>:<value>` …, `|`, then
 `N<number>:<src>`, `M<x,y,type,slides>:<modifiers>:<src>`, `C<comment>:<src>`, `R<result>:<src>`.
 
-`ParseTPS` is not modelled here: ops that need the start position carry the real function's
-answer for the file's `TPS` tag as `<hex of the tag value>=<position | err | panic>` (or `-`). -/
+The model runs with `PTN.realEnv` (the byte-level models of `ParseMove`/`FormatMove`/`ParseTPS` of
+`Impl/PTNMove.lean`, `Impl/TPS.lean`).  Ops that need the start position still carry the real `ParseTPS`'s
+answer for the file's `TPS` tag as `<hex of the tag value>=<position | err | panic>` (or `-`); it is parsed
+but not used any more. -/
 namespace Driver.PTNOps
 open Tak Codec PTN
 
@@ -57,7 +60,7 @@ def parseOpTok (tok : String) : Option PTN.Op :=
   let body := (tok.drop 1).toString
   match tok.front, body.splitOn ":" with
   | 'N', [n, s] => do pure (.moveNumber (← hexDec s) (← n.toInt?))
-  | 'M', [m, mods, s] => do pure (.move (← hexDec s) (← parseMove m) (← hexDec mods))
+  | 'M', [m, mods, s] => do pure (.move (← hexDec s) (← Codec.parseMove m) (← hexDec mods))
   | 'C', [c, s] => do pure (.comment (← hexDec s) (← hexDec c))
   | 'R', [r, s] => do pure (.result (← hexDec s) (← hexDec r))
   | _, _ => none
@@ -82,8 +85,9 @@ def parseTpsRes (tok : String) : Option (Bytes → R Pos) :=
     pure (fun b => if b == key then r else .error (.hang "unresolved TPS"))
   | _ => none
 
-def mkEnv (st : St) (tps : Bytes → R Pos) : Env :=
-  { parseMove := Inst.parseMove, formatMove := Inst.formatMove, parseTPS := tps, basis := st.basis }
+/-- the environment of the linked theorems (`PTN.realEnv`): the byte-level models of `ParseMove`, `FormatMove`,
+`ParseTPS`.  The harness's own `ParseTPS` answer (`tps`) is no longer consulted. -/
+def mkEnv (st : St) (_tps : Bytes → R Pos) : Env := realEnv st.basis
 
 def noTps : Bytes → R Pos := fun _ => .error (.hang "unresolved TPS")
 
@@ -145,7 +149,7 @@ def handlePTN : Handler := fun st op args =>
         | .error e => fmtErr' e
         | .ok g => if g.tags == f.tags && g.ops.map Op.clearSrc == f.ops.map Op.clearSrc then "same" else "differs")
   | "ptnaddmoves", toks =>
-    some (st, match toks.mapM parseMove with
+    some (st, match toks.mapM Codec.parseMove with
       | none => "bad-move"
       | some ms => fmtFile ((⟨[], []⟩ : File).addMoves ms))
   | "ptninit", [h, tr] =>
